@@ -174,7 +174,8 @@ Configure(c) ==
 \* an allowed-key list accompanies the text (a string is split at blanks: it needs two keys)
 GiveAllowed(ks, form) ==
     /\ Fresh /\ ~allowed.given /\ cfgv = DefaultCfg
-    /\ form \in {"list", "tuple", "set", "dict", "str"}
+    \* ("alias": a mapping key -> Substance whose NAME differs from the key; texts are written with keys)
+    /\ form \in {"list", "tuple", "set", "dict", "str", "alias"}
     /\ (form = "str" => Cardinality(ks) >= 2)
     /\ allowed' = [given |-> TRUE, keys |-> ks, form |-> form]
     /\ UNCHANGED <<doc, line, toks, den, lines, side, nside, ninact, stage, fault, arrow, klass, ncom, printed, reparsed, cfgv, sl>>
@@ -527,6 +528,12 @@ HasRepeat == \E i \in 1..Len(lines) : \E s \in {"reac", "prod"} : \E kind \in {"
                 Cardinality(TermsOn(lines[i].toks, kind, s)) > Cardinality(DOMAIN SideMap(lines[i].toks, kind, s))
 \* the system readers are used for several lines, comments, and the options only they have
 IsSystem == Len(lines) > 1 \/ ncom > 0 \/ cfgv.msfk \/ cfgv.ctoks # "default" \/ lines = <<>>
+\* history: the read object is edited in place (a species whose key sorts before all others joins the
+\* reactants, one that sorts after all others the products), then copied: the copy equals the edited
+\* original, has its content, and prints the same text
+EditLow == "!M"
+EditHigh == "~M"
+EditedDen(d) == [d EXCEPT !.reac = Accumulate(@, EditLow, QOne), !.prod = Accumulate(@, EditHigh, Q(2))]
 \* copy(param=...) replaces the parameter and nothing else
 OverrideParam == Dec(FALSE, <<7, 2, 5>>, 0)
 Class ==
@@ -566,6 +573,9 @@ CaseRec ==
                 duplicates |-> Duplicates,
                 substances |-> SetSeq(SystemKeys),
                 copy_eq |-> TRUE, copy_indep |-> TRUE,
+                edit |-> [low |-> EditLow, high |-> EditHigh],
+                edited |-> [i \in 1..Len(lines) |-> DenJ(EditedDen(lines[i].den))],
+                edit_copy_eq |-> TRUE, edit_str_eq |-> TRUE,
                 override |-> DecJ(OverrideParam),
                 copy_over |-> [i \in 1..Len(lines) |-> DenJ([lines[i].den EXCEPT !.param = SomeParam(OverrideParam)])],
                 printable |-> (stage = "final"),
